@@ -25,6 +25,16 @@ CLAIMED = {
    text="Decides a sufficient structural condition and reports its exceptions: the only in-memory state that block n may leave for block n+1 is the sync height (persisted and restored). The footprint today is that height plus the three rolling-average cache fields, which are recorded as a known genuine defect (count-trimmed incrementally, window-rebuilt after restart); any new carried location or new writer of one is a violation. Does not decide equality of ledgers across restart placements.",
    note="Trusted: go/ssa, module call graph, field-based location abstraction. A future cache that is semantically transparent would be reported and would need an audited entry after review (stated in DESIGN.md §4 C09).",
    ref="DESIGN.md §2.7 E5, §4 C09"),
+ "C11": dict(
+   technique="abstract decision tables (SCCP over go/ssa per height class and per transaction-shape cell) + SSA provenance (backward slices: same Winners() element for amount, address and history row) + index-coverage comparison between the admission gate and the dependency's validators + per-loop-variable aliasing lint",
+   text="Decides: the grader version and height handed to both graders for every height class; FCT burns applied only before 2.0, SPR winners paid only from 2.0; in both winner-payout functions exactly one PEG credit per element of Winners(), amount = Payout() and address = GetAddress() of the same element that is written to history; a factoid transaction is registered as a burn in exactly one of the 72 cells of its shape table (1 EC output to the burn address with amount 0, 1 FCT input, no FCT output) and the pFCT credit is that input's amount and address; previous winners are read for the block height and handed to the grader; no pointer to a per-loop variable is retained. Reports as a known genuine defect that the external id gating staking records (ExtIDs[1]) is never bound to the key the grader verifies (ExtIDs[2]). Does not decide the graders' verdicts or reward amounts (dependency).",
+   note="Trusted: the pegnet grader modules, mainnet activation constants, go/ssa. Decision tables bind values by type-qualified field paths (e.g. factom.FactoidTransaction.ECOutputs); a binding that matches nothing makes the check fail as undecided rather than pass vacuously.",
+   ref="DESIGN.md §2.6, §4 C11, Appendix B"),
+ "C13": dict(
+   technique="abstract decision table: SCCP over go/ssa of the admission loop of applyTransactionBatch for height class x destination ticker (62) x zero-rate pattern, reading the verdict off the executable exits of the loop body; same for ValidatePegTx gating, conversions.Convert zero patterns and IsRejectedTx codes",
+   text="Decides the complete admission matrix: for every height class, every destination asset and every zero/non-zero pattern of the two rates, which exits of the checking loop are executable - ZeroRatesError iff a rate is zero, PFCTOneWayError iff height >= 220346 and destination pFCT, PSMALLOneWayError iff height >= 274036 and destination in the 15 small-cap assets or PEG, else proceed; conversions into PEG are rejected with status -2 and skipped from 2.0 on (ValidatePegTx consulted iff height >= activation, with the executing height); Convert rejects zero rates always and zero averages from PIP-10; every reject sentinel maps to a distinct negative code. 10k abstract scenarios enumerate the space the property quantifies over. 'Leaves balances untouched' is the write-before-reject rule claimed under C03. Does not decide that every admitted conversion then executes with the right amount (C07).",
+   note="Trusted: mainnet activation constants; the expected one-way set was transcribed by hand from the doc comment of config.OneWaySmallAssetsConversions (not parsed at check time); go/ssa.",
+   ref="DESIGN.md §2.6, §4 C13, Appendix B"),
  "C15": dict(
    technique="abstract decision tables: sparse conditional constant propagation over go/ssa specialised per height class (all intervals/points of the activation constants x residue mod 144), must-pass-through and execution-order queries on the specialised CFG, constant evaluation of the reward arithmetic, who-may-call",
    text="Decides for every height class which scheduled-issuance function is executable and with which height: the 2.0.4 mint and its burn only at their activation heights, burn-address zeroing only at its two heights (right address, history rows only before 2.0.2), developer payouts iff height >= activation and height % 144 == 0; that at those heights the call lies on every non-failing path (cannot be skipped by unrelated conditions); that a step which debits amounts read from committed balances precedes every other balance write of the block; that each developer's credit equals percentage x total in both eras with totals 2,000 and 2,000x144 PEG, percentages summing to 100, history row = credit, ticker PEG; that these functions have no other caller; and mint-table sanity. The heights are enumerated exhaustively as equivalence classes, not sampled. Does not decide the mint amounts themselves (the table is the specification) nor behaviour under faults (C10).",
